@@ -131,8 +131,7 @@ C14_SPEC = dict(
          "through a hash of the file), plus the bundled benches/JASPAR2024.pwm (2346 records), tests/*.pfm and "
          "tests/*.uniprobe; each file read through BufReader capacities 1,2,3,5,17,64,8192 and two custom BufReads "
          "with cyclic random chunk sizes. Checked: what the generator printed meets the boolean hypotheses of the "
-         "round-trip theorems (extracted wf_jaspar / wf_jaspar16 / wf_uniprobe + wf_prefix / wf_blank_prefix / wf_suffix; "
-         "UniPROBE files with a white-space suffix are outside the theorem and only compared with the model); under "
+         "round-trip theorems (extracted wf_jaspar / wf_jaspar16 / wf_uniprobe + wf_prefix / wf_blank_prefix / wf_suffix); under "
          "every chunking the outcomes are exactly the written records "
          "(id, description, every cell = the token of its position in the line of its symbol, other columns 0: "
          "IoPrint.record_of) then END (extracted check_c14, proved sound), and equal the extracted reader+parser model "
@@ -148,7 +147,7 @@ C14_SPEC = dict(
         "SIGN? (DIGITS ('.' DIGITS?)? | '.' DIGITS) ([eE] SIGN? DIGITS)? (IoPrintU.wf_dec) on which the float oracle is "
         "defined, names without CR/LF that trim() leaves unchanged and that do not look like a column line, rows passing "
         "FrequencyMatrix::new's tolerance (binary32, Flocq), any number of empty lines after each record, any white-space-only "
-        "complete lines before the first record; nan/inf spellings (such rows never pass the tolerance test) are covered "
+        "complete lines before the first record, any ASCII white space after the last; nan/inf spellings (such rows never pass the tolerance test) are covered "
         "by the correspondence check only",
         "the record list of the JASPAR round-trip theorems is non-empty; the empty list is reader_roundtrip_no_record "
         "(a file of white space only reads as End; a file without any '>' whose last byte is not white space yields "
